@@ -70,6 +70,11 @@ func (e *Embed) GenerateOutput(textOnly bool) string {
 	if tagName == "blockquote" || tagName == "iframe" {
 		domutil.StripAttributes(e.Element)
 		dom.RemoveNodes(dom.GetAllNodesWithTag(e.Element, "script", "style"), nil)
+		if tagName == "blockquote" {
+			// The quoted tweet is text and links; frames of other sites nested in it are
+			// dropped like everywhere else in the distilled content.
+			dom.RemoveNodes(dom.GetAllNodesWithTag(e.Element, "iframe", "object", "embed", "applet"), nil)
+		}
 		dom.AppendChild(embed, e.Element)
 	}
 
